@@ -8,6 +8,7 @@ mod cfgmat;
 mod cfgops;
 mod hist;
 mod mig;
+mod opsval;
 mod pb;
 mod probe;
 mod qry;
